@@ -100,6 +100,10 @@ def tyv(v) -> str:
     if isinstance(v, np.ndarray):
         if v.ndim == 1 and (v.dtype.kind in "iu" or v.size == 0):
             return "(TArr " + czlist(int(x) for x in v) + ")"
+        # numpy promotes [python int, np.uint64] to float64: an integer-valued float array still
+        # denotes the same shape (the dtype of type arrays is checked by the C05 oracle only)
+        if v.ndim == 1 and v.dtype.kind == "f" and all(float(x).is_integer() for x in v):
+            return "(TArr " + czlist(int(x) for x in v) + ")"
         return "TOther"
     if isinstance(v, (tuple, list)) and all(isinstance(x, (int, np.integer)) for x in v):
         return "(TSeq " + czlist(int(x) for x in v) + ")"
